@@ -828,6 +828,112 @@ fn pipe_wiring(args: &[i128]) -> Result<String, String> {
     }))
 }
 
+fn part_source(parts: Vec<Vec<Kv>>) -> impl Fn(u64, u64) -> std::vec::IntoIter<Kv> + Send + Clone + 'static {
+    move |id: u64, _n: u64| parts[id as usize].clone().into_iter()
+}
+
+fn fmt_opt_join(out: Option<Vec<(u64, Option<Kv>, Option<Kv>)>>) -> String {
+    match out {
+        None => "NOOUTPUT".to_string(),
+        Some(v) => {
+            let show = |x: &Option<Kv>| match x {
+                Some(x) => x.1.to_string(),
+                None => "_".to_string(),
+            };
+            let mut toks: Vec<String> = v
+                .iter()
+                .map(|(k, l, r)| format!("{}:{}-{}", k, show(l), show(r)))
+                .collect();
+            toks.sort();
+            fmt_list(&toks)
+        }
+    }
+}
+
+/// pipe_join [par, api, nl, (k, v, part)*, nr, (k, v, part)*]: both inputs come from `par` source replicas (item j from
+/// replica part_j). api: 0 `join`, 1 `left_join`, 2 `outer_join`, 3 `join_with.ship_hash.local_hash.outer`,
+/// 4 `..ship_hash.local_sort_merge.left`, 5 `..ship_broadcast_right.local_hash.left`,
+/// 6 `..ship_broadcast_right.local_sort_merge.inner`. Output: sorted `k:lv-rv` (`_` = None).
+fn pipe_join(args: &[i128]) -> Result<String, String> {
+    let mut a = Args::new("pipe_join", args);
+    let par = par_arg(&mut a)?;
+    let api = a.ranged("api", 0, 6)? as u8;
+    let mut sides: Vec<Vec<Vec<Kv>>> = Vec::new();
+    for _ in 0..2 {
+        let n = a.ranged("n", 0, MAX_ITEMS)? as usize;
+        let mut parts: Vec<Vec<Kv>> = vec![Vec::new(); par as usize];
+        for _ in 0..n {
+            let k = a.u64("k")?;
+            let v = a.u64("v")?;
+            let p = a.ranged("part", 0, par as i128 - 1)? as usize;
+            parts[p].push((k, v));
+        }
+        sides.push(parts);
+    }
+    a.end()?;
+    let r = sides.pop().unwrap();
+    let l = sides.pop().unwrap();
+    Ok(supervised(move || {
+        let env = context(par);
+        let s1 = env.stream_par_iter(part_source(l));
+        let s2 = env.stream_par_iter(part_source(r));
+        let k1 = |x: &Kv| x.0;
+        let k2 = |y: &Kv| y.0;
+        match api {
+            0 => {
+                let out = s1.join(s2, k1, k2).collect_vec();
+                env.execute_blocking();
+                fmt_opt_join(out.get().map(|v| v.into_iter().map(|(k, (l, r))| (k, Some(l), Some(r))).collect()))
+            }
+            1 => {
+                let out = s1.left_join(s2, k1, k2).collect_vec();
+                env.execute_blocking();
+                fmt_opt_join(out.get().map(|v| v.into_iter().map(|(k, (l, r))| (k, Some(l), r)).collect()))
+            }
+            2 => {
+                let out = s1.outer_join(s2, k1, k2).collect_vec();
+                env.execute_blocking();
+                fmt_opt_join(out.get().map(|v| v.into_iter().map(|(k, (l, r))| (k, l, r)).collect()))
+            }
+            3 => {
+                let out = s1.join_with(s2, k1, k2).ship_hash().local_hash().outer().collect_vec();
+                env.execute_blocking();
+                fmt_opt_join(out.get().map(|v| v.into_iter().map(|(k, (l, r))| (k, l, r)).collect()))
+            }
+            4 => {
+                let out = s1
+                    .join_with(s2, k1, k2)
+                    .ship_hash()
+                    .local_sort_merge()
+                    .left()
+                    .collect_vec();
+                env.execute_blocking();
+                fmt_opt_join(out.get().map(|v| v.into_iter().map(|(k, (l, r))| (k, Some(l), r)).collect()))
+            }
+            5 => {
+                let out = s1
+                    .join_with(s2, k1, k2)
+                    .ship_broadcast_right()
+                    .local_hash()
+                    .left()
+                    .collect_vec();
+                env.execute_blocking();
+                fmt_opt_join(out.get().map(|v| v.into_iter().map(|(k, (l, r))| (k, Some(l), r)).collect()))
+            }
+            _ => {
+                let out = s1
+                    .join_with(s2, k1, k2)
+                    .ship_broadcast_right()
+                    .local_sort_merge()
+                    .inner()
+                    .collect_vec();
+                env.execute_blocking();
+                fmt_opt_join(out.get().map(|v| v.into_iter().map(|(k, (l, r))| (k, Some(l), Some(r))).collect()))
+            }
+        }
+    }))
+}
+
 #[no_mangle]
 pub fn verif_replay_pipe(name: &str, args: &[i128]) -> Option<String> {
     let r = match name {
@@ -840,6 +946,7 @@ pub fn verif_replay_pipe(name: &str, args: &[i128]) -> Option<String> {
         "pipe_wiring" => pipe_wiring(args),
         "pipe_nested" => pipe_nested(args),
         "pipe_agg2" => pipe_agg2(args),
+        "pipe_join" => pipe_join(args),
         _ => return None,
     };
     Some(match r {
